@@ -287,6 +287,21 @@ def forest_phase(tier, rng, ev, tmp):
     ev.add_tlc('MC_EarleyForest R=3 L=%d (the forest stands for the derivations, each once)' % L, res, 'design')
     if not res.ok:
         raise C.MachineryFailure('MC_EarleyForest: %s violated' % res.violated)
+    # the dynamic scanner's forest (tokens of several lengths, ignored text, carried items): the code's design holds, the
+    # pinned one (completed start items carried inside the chart) must be refuted - defect 20
+    xcfg = ('SPECIFICATION Spec\nCONSTANTS\n MaxRules = 2\n MaxLen = %d\n RootsInChart = %s\nINVARIANT AcceptsIffDerivable\nINVARIANT ForestExact\n'
+            'INVARIANT NoDuplicate\nCHECK_DEADLOCK FALSE\n')
+    XL = 3 if tier == 'quick' else 4
+    res = C.tlc('MC_XEarleyForest', xcfg % (XL, 'FALSE'), timeout=3000)
+    C.tlc_must_run(res, 'MC_XEarleyForest')
+    ev.add_tlc('MC_XEarleyForest R=2 L=%d (completed start items wait on the side)' % XL, res, 'design')
+    if not res.ok:
+        raise C.MachineryFailure('MC_XEarleyForest: %s violated' % res.violated)
+    r2 = C.tlc('MC_XEarleyForest', xcfg % (3, 'TRUE'), timeout=900, workers=4)
+    C.tlc_must_run(r2, 'MC_XEarleyForest (roots carried inside the chart)')
+    ev.cov['binding_selftest']['model_refutes_roots_carried_in_chart'] = 'NoDuplicate' in r2.violated
+    if 'NoDuplicate' not in r2.violated:
+        raise C.MachineryFailure('MC_XEarleyForest accepts the pinned carry-over of completed start items: the model is vacuous')
     sps = []
     Gs = list(F.bnf_family(3))
     for Gb in F.sample(Gs, C.scale(700 if tier == 'quick' else 6000), rng):
